@@ -294,6 +294,44 @@ theorem iterMin_mk
       simp only [Option.some.injEq, Prod.mk.injEq] at h
       rw [← h.2]; exact hD
 
+/-- the minimum loop with the zero-width shortcut (fix abfdb8a): every iteration but the last advances
+    the position, so the fuel `min (min+1) (len+1000)` suffices for EVERY `min` (no `1 ≤ d` needed) -/
+theorem iterMinZ_mk
+    (hB : ∀ p st, D p → (child p st).All (fun n => D n ∧ p + d ≤ n ∧ n ≤ L))
+    (hT : ∀ p st, D p → MarkOk b st → (child p st).Term (MarkOk b)) (min : Nat) :
+    ∀ fuel count pos st, D pos → MarkOk b st → 1 ≤ fuel →
+      (min + 1 ≤ count + fuel ∨ L + 2 ≤ pos + fuel) →
+      MarkOk b (iterMinZ child min fuel count pos st).2 ∧
+      ∀ c' pos', (iterMinZ child min fuel count pos st).1 = some (c', pos') → D pos' := by
+  intro fuel
+  induction fuel with
+  | zero => intro count pos st _ _ h1 _; omega
+  | succ f ih =>
+    intro count pos st hD hm _ hinv
+    unfold iterMinZ
+    split
+    · rename_i hlt
+      split
+      · rename_i n x st1 heq
+        have hm1 : MarkOk b st1 := (hT pos st hD hm).first1_eq heq
+        have hn := first1_sound (hB pos st hD) heq
+        simp only at hn
+        split
+        · refine ⟨hm1, ?_⟩
+          intro c' pos' h
+          simp only [Option.some.injEq, Prod.mk.injEq] at h
+          rw [← h.2]; exact hD
+        · rename_i hne
+          have hne' : n ≠ pos := by simpa using hne
+          exact ih _ _ _ hn.1 hm1 (by omega) (by omega)
+      · rename_i st1 heq
+        refine ⟨(hT pos st hD hm).first1_eq heq, ?_⟩
+        intro c' pos' h; simp at h
+    · refine ⟨hm, ?_⟩
+      intro c' pos' h
+      simp only [Option.some.injEq, Prod.mk.injEq] at h
+      rw [← h.2]; exact hD
+
 theorem rfixedMore_term
     (hB : ∀ p st, D p → (child p st).All (fun n => D n ∧ p + d ≤ n ∧ n ≤ L))
     (hT : ∀ p st, D p → MarkOk b st → (child p st).Term (MarkOk b)) (hd : 1 ≤ d) (max position : Nat) :
@@ -451,21 +489,23 @@ theorem loopFuel_pos (ctx : Ctx) (min : Nat) : 1 ≤ loopFuel ctx min := by
   rw [Nat.min_def]
   split <;> omega
 
-theorem repReluctantGen_term (ctx : Ctx)
+/-- the reluctant repeat terminates for EVERY minimum (fix abfdb8a; no `min < len + 1000`) -/
+theorem repReluctantGen_term_all (ctx : Ctx)
     (hB : ∀ p st, D p → (child p st).All (fun n => D n ∧ p + d ≤ n ∧ n ≤ ctx.len))
     (hT : ∀ p st, D p → MarkOk b st → (child p st).Term (MarkOk b)) (min max : Nat)
-    (hmin : min < ctx.len + 1000)
     (position : Nat) (hD : D position) (st : St) (hm : MarkOk b st) :
     (repReluctantGen ctx child min max position st).Term (MarkOk b) := by
   unfold repReluctantGen
-  have hfuel : min + 1 ≤ 0 + loopFuel ctx min := by
+  have hfuel : min + 1 ≤ 0 + loopFuel ctx min ∨ ctx.len + 2 ≤ position + loopFuel ctx min := by
     unfold loopFuel
-    change min + 1 ≤ 0 + Min.min (min + 1) (ctx.len + 1000)
+    change min + 1 ≤ 0 + Min.min (min + 1) (ctx.len + 1000) ∨
+      ctx.len + 2 ≤ position + Min.min (min + 1) (ctx.len + 1000)
     rw [Nat.min_def]
-    split <;> omega
-  have h := iterMin_mk hB hT min (loopFuel ctx min) 0 position st hD hm (loopFuel_pos ctx min)
-    (.inl hfuel)
-  generalize iterMin child min (loopFuel ctx min) 0 position st = r at h
+    split
+    · left; omega
+    · right; omega
+  have h := iterMinZ_mk hB hT min (loopFuel ctx min) 0 position st hD hm (loopFuel_pos ctx min) hfuel
+  generalize iterMinZ child min (loopFuel ctx min) 0 position st = r at h
   obtain ⟨o, st1⟩ := r
   obtain ⟨hm1, hpos⟩ := h
   simp only at hm1 hpos
@@ -479,6 +519,15 @@ theorem repReluctantGen_term (ctx : Ctx)
     have hne : (some pos == (none : Option Nat)) = false := rfl
     simp only [hne, Bool.false_eq_true, if_false, gt_iff_lt, Nat.not_lt_zero]
     exact relMore_force_term hB hT max _ count pos 0 st'' hDp h'' (by omega) (by omega)
+
+set_option linter.unusedVariables false in
+theorem repReluctantGen_term (ctx : Ctx)
+    (hB : ∀ p st, D p → (child p st).All (fun n => D n ∧ p + d ≤ n ∧ n ≤ ctx.len))
+    (hT : ∀ p st, D p → MarkOk b st → (child p st).Term (MarkOk b)) (min max : Nat)
+    (hmin : min < ctx.len + 1000)
+    (position : Nat) (hD : D position) (st : St) (hm : MarkOk b st) :
+    (repReluctantGen ctx child min max position st).Term (MarkOk b) :=
+  repReluctantGen_term_all ctx hB hT min max position hD st hm
 
 theorem rfixedGen_term (ctx : Ctx)
     (hB : ∀ p st, D p → (child p st).All (fun n => D n ∧ p + d ≤ n ∧ n ≤ ctx.len))
